@@ -11,6 +11,7 @@ import (
 
 	"verif/sim/common"
 	"verif/sim/instr"
+	"verif/sim/simrt"
 	"verif/sim/workerlib"
 )
 
@@ -33,6 +34,7 @@ type Check struct {
 	Determ    determResult
 	NCPU      int
 	GrowIters int
+	Novel     []string
 	Grow      growStats
 	Knob      knobStats
 	Log       func(format string, a ...interface{})
@@ -171,21 +173,26 @@ func (c *Check) reference() {
 	}
 	// fresh-process reference for a sample (probes first): result as the first
 	// and only library call of a process
+	// Fresh-process truth: every input that the history experiments use most
+	// (probes, token families, literals, fixtures) - thorough: every input - is
+	// evaluated as the first and only call of its own process.
 	var sample []int
+	inSample := map[int]bool{}
 	for i, f := range corpus.Flags {
-		if f&common.FProbe != 0 {
+		if f&(common.FProbe|common.FFamily|common.FLiteral|common.FFixture) != 0 && f&common.FLong == 0 {
 			sample = append(sample, i)
+			inSample[i] = true
 		}
 	}
-	nFresh := 64
+	nFresh := len(sample) + 400
 	if c.Tier == "thorough" {
-		nFresh = len(sample) + 200
+		nFresh = corpus.Len()
 	}
-	for i := 0; len(sample) < nFresh && i < corpus.Len(); i += 1 + corpus.Len()/257 {
-		sample = append(sample, i)
-	}
-	if len(sample) > nFresh {
-		sample = sample[:nFresh]
+	for i := 0; len(sample) < nFresh && i < corpus.Len(); i += 1 + corpus.Len()/(nFresh-len(sample)+1) {
+		if !inSample[i] && corpus.Flags[i]&common.FLong == 0 {
+			sample = append(sample, i)
+			inSample[i] = true
+		}
 	}
 	fresh := make([][2]string, len(sample))
 	ferr := make([]error, len(sample))
@@ -219,6 +226,11 @@ func (c *Check) reference() {
 	for i := range fwd {
 		corpus.Ref[0][i] = fwd[i][0]
 		corpus.Ref[1][i] = fwd[i][1]
+	}
+	// where a fresh-process value exists it IS the reference
+	for k, i := range sample {
+		corpus.Ref[0][i] = fresh[k][0]
+		corpus.Ref[1][i] = fresh[k][1]
 	}
 	must(corpus.Write(c.CorpusP))
 }
@@ -481,13 +493,30 @@ func (c *Check) refToSession(rv *refViolation) (*workerlib.Violation, []workerli
 			// an empty expectation means "not checked"
 			last := &session[0].Tasks[0][len(calls)-1]
 			last.Exp = common.B64(fresh)
-			pr := runExplicit(c.E, session)
-			for _, v := range pr.Violations {
-				if v.Kind == "mismatch" {
-					v.Run = &session[0]
-					return v, session
+			// one caller, fair round-robin first; if the library starts goroutines of
+			// its own, how they interleave with the caller matters: try seeded policies
+			tries := 1
+			if c.E.Report.GoStmts > 0 {
+				tries = 25
+			}
+			for k := 0; k < tries; k++ {
+				if k > 0 {
+					session[0].Policy = simrt.Policy{Kind: []string{"walk", "pct", "rr"}[k%3], P: []float64{0.01, 0.05, 0.2}[(k/3)%3], Depth: 2 + k%4, Quantum: int64(1 + k%7)}
+					session[0].Seed = uint64(k) * 7919
+				}
+				pr := runExplicit(c.E, session)
+				for _, v := range pr.Violations {
+					if v.Kind == "mismatch" {
+						// the worker recorded the decisions it took: replay unit is explicit
+						if v.Run != nil {
+							session[0] = *v.Run
+						}
+						v.Run = &session[0]
+						return v, session
+					}
 				}
 			}
+			session[0].Policy = simrtPolicyExplicit()
 		}
 	}
 	return nil, nil
@@ -562,7 +591,7 @@ func (c *Check) grow() {
 	sums := make([]*workerlib.Summary, procs)
 	parallel(procs, c.NCPU, func(i int) {
 		out := filepath.Join(c.E.Scratch, "ses", fmt.Sprintf("grow%d.txt", i))
-		ses := &workerlib.Session{Mode: "cover", Corpus: c.CorpusP, Seed: c.Seed, Worker: i, Runs: iters, SeqOut: out}
+		ses := &workerlib.Session{Mode: "cover", Corpus: c.CorpusP, Seed: c.Seed, Worker: i, Runs: iters, SeqOut: out, Words: novelLiterals(c.E.VerifDir, c.E.Report.StrLits)}
 		pr := runWorker(c.E, ses, 2, 30*time.Minute)
 		if pr.Summary == nil {
 			// the non-race build died (a fatal error on some generated input):
@@ -619,7 +648,8 @@ func (c *Check) grow() {
 		}
 		os.Remove(filepath.Join(c.E.Scratch, "ses", "grow0.txt.dict"))
 	}
-	c.CStats.Family = addFamilies(c.Corpus, dict, c.Seed)
+	c.Novel = novelLiterals(c.E.VerifDir, c.E.Report.StrLits)
+	c.CStats.Family = addFamilies(c.Corpus, dict, c.Seed, c.Novel)
 	c.CStats.Total = c.Corpus.Len()
 	must(c.Corpus.Write(c.CorpusP))
 }
@@ -760,5 +790,35 @@ func (c *Check) searchSmall(firstWorker, procs, runsPer int) {
 			harnessFail("small-variant search: %v", err)
 		}
 		c.Agg.add("small_variant", pr)
+	})
+}
+
+// sweepRepeat: repetition sweep over the probes.
+func (c *Check) sweepRepeat() {
+	_, probes := workerlib.HistLists(c.Corpus)
+	n := len(probes)
+	if n == 0 {
+		return
+	}
+	reps := 300
+	if c.Tier == "thorough" {
+		reps = 5000
+	}
+	procs := c.NCPU * 2
+	per := (n + procs - 1) / procs
+	parallel(procs, c.NCPU, func(i int) {
+		from, to := i*per, (i+1)*per
+		if to > n {
+			to = n
+		}
+		if from >= to {
+			return
+		}
+		ses := &workerlib.Session{Mode: "repeat", Corpus: c.CorpusP, Seed: c.Seed, Worker: i, From: from, To: to, Runs: reps, NSites: len(c.E.Report.Sites), DistinctPath: c.distinctPath()}
+		pr := runWorker(c.E, ses, 2, 15*time.Minute)
+		if err := procOK(pr); err != nil {
+			harnessFail("repetition sweep: %v", err)
+		}
+		c.Agg.add("repeat_sweep", pr)
 	})
 }
